@@ -15,8 +15,11 @@ import json, os, re, shutil, subprocess, sys
 ident, summary, needs = sys.argv[1], sys.argv[2], sys.argv[3]
 note = sys.argv[4] if len(sys.argv) > 4 else ""
 prop, n = ident.split("/")
-src = f"/tmp/seed/out_{prop}"
-res_path = f"/tmp/confirm/{prop}-{n}.result"
+root = os.environ.get("SEEDROOT", "/tmp/seed")            # where the seeder wrote out_<prop>/change<n>.*
+confirm = os.environ.get("CONFIRMDIR", "/tmp/confirm")     # where tools/confirm_all.sh wrote <prop>-<n>.result
+offset = int(os.environ.get("NOFFSET", "0"))               # stored as <prop>-<n+offset> (second round: 2)
+src = f"{root}/out_{prop}"
+res_path = f"{confirm}/{prop}-{n}.result"
 res = {}
 for line in open(res_path):
     if "=" in line:
@@ -44,7 +47,7 @@ keys = sorted(set(m.group(1) for m in re.finditer(r"^\s*(?:VIOLATED|UNDECIDED)\s
 by_prop = sorted(set(k.split(".")[0] for k in keys))
 own = [k for k in keys if k.startswith(prop + ".")]
 
-dst = f"/verif/seeded/{prop}-{n}"
+dst = f"/verif/seeded/{prop}-{int(n) + offset}"
 os.makedirs(dst, exist_ok=True)
 shutil.copy(patch, f"{dst}/patch.diff")
 shutil.copy(f"{src}/change{n}_demo_test.go", f"{dst}/demo_test.go")
